@@ -465,6 +465,12 @@ def fmt_println(ex, st, fr, ins, args):
 @stub('fmt.Fprintf')
 def fmt_fprintf(ex, st, fr, ins, args):
     _record(ex, st, 'Fprintf', args[1:])
+    w = args[0]
+    if isinstance(w, Iface) and w.t.s == '*bytes.Buffer' and isinstance(args[1], Str) and args[1].concrete():
+        # the format string verbatim (operand text is not modelled)
+        ex.res.stubs.add('fmt.Fprintf into a bytes.Buffer appends the format string verbatim (operand text not modelled)')
+        _buf_append(ex, st, w.v, list(args[1].b))
+        return Tup([len(args[1].b), None])
     return Tup([0, None])
 
 
@@ -491,16 +497,117 @@ def fmt_errorf(ex, st, fr, ins, args):
     return Iface(t, Str(b'<errorf>'))
 
 
+# bytes.Buffer: a model with content (the struct's own buf/off fields hold it, so copies,
+# pooled buffers and Reset behave as in the real type, including the aliasing of Bytes()
+# with later writes that fit the capacity).  fmt.Fprintf into a Buffer appends the format
+# string verbatim: the text fmt makes of the operands is not modelled, line structure is.
+def _buf_offs(ex):
+    return _field_off(ex, 'bytes.Buffer', 'buf'), _field_off(ex, 'bytes.Buffer', 'off')
+
+
+def _buf_get(ex, st, p):
+    if p is None:
+        raise PathEnd('panic', 'nil pointer dereference (bytes.Buffer)')
+    bo, oo = _buf_offs(ex)
+    slots = st.heap[p.obj]
+    cur = slots[p.off + bo]
+    off = slots[p.off + oo]
+    if not isinstance(off, int):
+        raise EngineError('bytes.Buffer with symbolic read offset')
+    if not isinstance(cur, Slice):
+        cur = Slice(None, 0, 0, 0, 1)
+    return cur, off
+
+
+def _buf_set(ex, st, p, sl, off):
+    bo, oo = _buf_offs(ex)
+    ex.check_ro(st, p.obj, 'store')
+    st.written.add(p.obj)
+    w = st.wobj(p.obj)
+    w[p.off + bo] = sl
+    w[p.off + oo] = off
+
+
+def _buf_append(ex, st, p, elems):
+    cur, off = _buf_get(ex, st, p)
+    elems = list(elems)
+    n = len(elems)
+    ln = ex.cint(st, cur.len)
+    cap = ex.cint(st, cur.cap)
+    if cur.obj is not None and ln + n <= cap:
+        w = st.wobj(cur.obj)
+        w[cur.off + ln:cur.off + ln + n] = elems
+        _buf_set(ex, st, p, Slice(cur.obj, cur.off, ln + n, cap, 1), off)
+        return
+    old = ex.slice_elems(st, cur)
+    ncap = max(64, 2 * cap + n)
+    slots = list(old) + elems + [0] * (ncap - ln - n)
+    oid = ex.new_obj(st, slots, 'bytes.Buffer content', [_U8])
+    _buf_set(ex, st, p, Slice(oid, 0, ln + n, ncap, 1), off)
+
+
 @stub('(*bytes.Buffer).Write')
 def buf_write(ex, st, fr, ins, args):
     b = args[1]
-    _record(ex, st, 'Buffer.Write', [Str(ex.slice_elems(st, b))])
-    return Tup([b.len, None])
+    elems = ex.slice_elems(st, b)
+    _record(ex, st, 'Buffer.Write', [Str(elems)])
+    _buf_append(ex, st, args[0], elems)
+    return Tup([len(elems), None])
+
+
+@stub('(*bytes.Buffer).WriteString')
+def buf_writestring(ex, st, fr, ins, args):
+    elems = list(args[1].b)
+    _buf_append(ex, st, args[0], elems)
+    return Tup([len(elems), None])
+
+
+@stub('(*bytes.Buffer).WriteByte')
+def buf_writebyte(ex, st, fr, ins, args):
+    _buf_append(ex, st, args[0], [args[1]])
+    return None
 
 
 @stub('(*bytes.Buffer).Bytes')
 def buf_bytes(ex, st, fr, ins, args):
-    return Slice(None, 0, 0, 0, 1)
+    cur, off = _buf_get(ex, st, args[0])
+    ln = ex.cint(st, cur.len)
+    if cur.obj is None:
+        return Slice(None, 0, 0, 0, 1)
+    return Slice(cur.obj, cur.off + off, ln - off, ex.cint(st, cur.cap) - off, 1)
+
+
+@stub('(*bytes.Buffer).String')
+def buf_string(ex, st, fr, ins, args):
+    if args[0] is None:
+        return Str(b'<nil>')
+    cur, off = _buf_get(ex, st, args[0])
+    return Str(ex.slice_elems(st, cur)[off:])
+
+
+@stub('(*bytes.Buffer).Len')
+def buf_len(ex, st, fr, ins, args):
+    cur, off = _buf_get(ex, st, args[0])
+    return ex.cint(st, cur.len) - off
+
+
+@stub('(*bytes.Buffer).Reset')
+def buf_reset(ex, st, fr, ins, args):
+    cur, off = _buf_get(ex, st, args[0])
+    _buf_set(ex, st, args[0], Slice(cur.obj, cur.off, 0, cur.cap, 1) if cur.obj is not None else cur, 0)
+    return None
+
+
+@stub('(*bytes.Buffer).Truncate')
+def buf_truncate(ex, st, fr, ins, args):
+    cur, off = _buf_get(ex, st, args[0])
+    n = ex.cint(st, args[1], 'Truncate length')
+    if n == 0:
+        return buf_reset(ex, st, fr, ins, args)
+    if n < 0 or n > ex.cint(st, cur.len) - off:
+        raise PathEnd('panic', 'bytes.Buffer: truncation out of range')
+    _buf_set(ex, st, args[0], Slice(cur.obj, cur.off, off + n, cur.cap, 1), off)
+    return None
 
 
 @intercept('vph/vp.NoteU64')
@@ -863,11 +970,20 @@ def av_store(ex, st, fr, ins, args):
 
 @stub('(*sync.Pool).Get')
 def pool_get(ex, st, fr, ins, args):
-    # sync.Pool may drop what was Put at any time: the always-empty pool is one of its legal
-    # behaviours and the one modelled (reuse of pooled objects is outside the model)
+    # sync.Pool may drop what was Put at any time or hand it back: the model hands back the
+    # most recently Put object if there is one (LIFO, one slot), otherwise calls New.  The
+    # pooled object is kept in the Pool's own `local` field; the Pool's internals are
+    # synchronised by the runtime, so this is not a write the read-only monitor reports.
     p = args[0]
-    off = _field_off(ex, 'sync.Pool', 'New')
+    lo = _field_off(ex, 'sync.Pool', 'local')
     slots = st.heap[p.obj]
+    kept = slots[p.off + lo]
+    if isinstance(kept, tuple) and len(kept) == 2 and kept[0] == 'pooled':
+        w = st.wobj(p.obj)
+        w[p.off + lo] = None
+        ex.res.stubs.add('sync.Pool: Get returns the most recently Put object (one slot), else New()')
+        return kept[1]
+    off = _field_off(ex, 'sync.Pool', 'New')
     f = slots[p.off + off]
     if f is None:
         return None
@@ -876,6 +992,12 @@ def pool_get(ex, st, fr, ins, args):
 
 @stub('(*sync.Pool).Put')
 def pool_put(ex, st, fr, ins, args):
+    p, v = args
+    if v is None:
+        return None
+    lo = _field_off(ex, 'sync.Pool', 'local')
+    w = st.wobj(p.obj)
+    w[p.off + lo] = ('pooled', v)
     return None
 
 
